@@ -369,6 +369,7 @@ def report_broken(ctx, found_counterexample):
     if ctx.broken and not found_counterexample:
         for b in ctx.broken:
             what = '%s (%s%s)' % (b.get('lemma') or 'obligation', b.get('file'), ':%s' % b['line'] if b.get('line') else '')
-            ctx.violation('broken-obligation', 'no longer checks: ' + what + ' -- ' + (b.get('error') or '')[:800],
-                          {'no_longer_checks': what, 'error': b.get('error'), 'file': b.get('file'), 'line': b.get('line')},
-                          found_input=False)
+            rep = dict(b)
+            rep.update({'no_longer_checks': what})
+            ctx.violation('broken-obligation' if b.get('line') else 'broken-correspondence',
+                          'no longer checks: ' + what + ' -- ' + (b.get('error') or '')[:800], rep, found_input=False)
